@@ -155,19 +155,9 @@ class OffTop(Exception):
     pass
 
 
-def eval_offset(fn: ast.FunctionDef, sign: str, hpos: bool, mpos: bool) -> Lin:
+def eval_offset(fn: ast.FunctionDef, sign: str, hpos: bool, mpos: bool, mod=None, cls=None) -> Lin:
     """Offset in seconds that the timezone is built from, for one case."""
     env: Dict[str, Any] = {}
-    names = None
-    for n in ast.walk(fn):
-        if isinstance(n, ast.Assign) and isinstance(n.targets[0], ast.Tuple) and "groups()" in ast.unparse(n.value):
-            names = [t.id for t in n.targets[0].elts if isinstance(t, ast.Name)]
-    if not names or len(names) != 3:
-        raise OffTop("no `sign, hh, mm = match.groups()`")
-    s_, h_, m_ = names
-    env[s_] = ("str", sign)
-    env[h_] = ("digits", "H")
-    env[m_] = ("digits", "M")
 
     def ev(e: ast.expr) -> Any:
         e = strip_cast(e)
@@ -176,6 +166,20 @@ def eval_offset(fn: ast.FunctionDef, sign: str, hpos: bool, mpos: bool) -> Lin:
                 return Lin(e.value)
             if isinstance(e.value, str):
                 return ("str", e.value)
+        if isinstance(e, ast.Subscript) and isinstance(e.value, ast.Call) and isinstance(e.value.func, ast.Attribute) and e.value.func.attr == "groups":
+            # <match>.groups()[i]: the sign character, the hour digits, the minute digits
+            try:
+                i = ast.literal_eval(e.slice)
+            except Exception:  # noqa: BLE001
+                raise OffTop("groups()[?]")
+            return [("str", sign), ("digits", "H"), ("digits", "M")][i]
+        if isinstance(e, ast.Call) and isinstance(e.func, ast.Attribute) and e.func.attr == "group" and len(e.args) == 1:
+            try:
+                i = ast.literal_eval(e.args[0])
+            except Exception:  # noqa: BLE001
+                raise OffTop("group(?)")
+            if i in (1, 2, 3):
+                return [("str", sign), ("digits", "H"), ("digits", "M")][i - 1]
         if isinstance(e, ast.Name):
             if e.id in env:
                 return env[e.id]
@@ -243,33 +247,49 @@ def eval_offset(fn: ast.FunctionDef, sign: str, hpos: bool, mpos: bool) -> Lin:
             return bool(env[t.id][1])
         raise OffTop(f"test {ast.unparse(t)[:40]}")
 
-    started = False
-    for st in fn.body:
-        if isinstance(st, ast.Assign) and isinstance(st.targets[0], ast.Tuple) and "groups()" in ast.unparse(st.value):
-            started = True
+    def timedelta_total(v: ast.Call) -> Lin:
+        total = Lin()
+        scale = {"seconds": 1, "minutes": 60, "hours": 3600}
+        for kw in v.keywords:
+            if kw.arg not in scale:
+                raise OffTop(f"timedelta({kw.arg}=...)")
+            x = ev(kw.value)
+            if not isinstance(x, Lin):
+                raise OffTop("non-numeric timedelta argument")
+            total = total + x.scale(scale[kw.arg])
+        if v.args:
+            raise OffTop("positional timedelta arguments")
+        return total
+
+    from ..core.paths import PathWalker, flat_conds, is_unknown
+
+    results = []
+    for p in PathWalker(mod, cls).paths(fn):
+        if p.kind != "return" or p.value is None:
             continue
-        if not started:
-            continue
-        if isinstance(st, ast.Assign) and isinstance(st.targets[0], ast.Name):
-            v = strip_cast(st.value)
-            if isinstance(v, ast.Call) and (dotted(v.func) or "").endswith("timedelta"):
-                total = Lin()
-                scale = {"seconds": 1, "minutes": 60, "hours": 3600}
-                for kw in v.keywords:
-                    if kw.arg not in scale:
-                        raise OffTop(f"timedelta({kw.arg}=...)")
-                    x = ev(kw.value)
-                    if not isinstance(x, Lin):
-                        raise OffTop("non-numeric timedelta argument")
-                    total = total + x.scale(scale[kw.arg])
-                if v.args:
-                    raise OffTop("positional timedelta arguments")
-                return total
+        feasible = True
+        for t, pol in flat_conds(p.conds):
+            txt = ast.unparse(t)
+            if "groups()" not in txt and ".group(" not in txt:
+                continue  # a test about the match object / the text: both outcomes are explored, raising paths are skipped
             try:
-                env[st.targets[0].id] = ev(st.value)
+                if truth(t) != pol:
+                    feasible = False
             except OffTop:
-                env.pop(st.targets[0].id, None)
-    raise OffTop("no timedelta(...) construction")
+                raise
+        if not feasible:
+            continue
+        tds = [c for c in ast.walk(p.value) if isinstance(c, ast.Call) and (dotted(c.func) or "").endswith("timedelta")]
+        if len(tds) != 1:
+            raise OffTop("the returned zone is not built from one timedelta(...)")
+        if is_unknown(tds[0]):
+            raise OffTop("the offset depends on a value assigned in a loop / try")
+        results.append(timedelta_total(tds[0]))
+    if not results:
+        raise OffTop("no returning path builds a timedelta(...)")
+    if any(r.key() != results[0].key() for r in results):
+        raise OffTop("returning paths disagree")
+    return results[0]
 
 
 def check(repo: Repo, run: Run) -> None:
@@ -330,15 +350,30 @@ def check(repo: Repo, run: Run) -> None:
     if tzo is None:
         raise AnchorMissing("TimestampType.tz_offset_parse")
     pat = None
+    from ..core.consteval import try_const
+    from ..core.model import deref
+
     for n in ast.walk(tzo):
-        if isinstance(n, ast.Call) and dotted(n.func) == "re.compile" and n.args and isinstance(n.args[0], ast.Constant):
-            pat = n.args[0].value
-    run.ob("C11.Z1", "tz_offset_parse|pattern", pat is not None and re.compile(pat).groups == 3 and re.fullmatch(pat, "-02:30") is not None and re.fullmatch(pat, "+14:00") is not None,
-           f"offset pattern {pat!r} has (sign, hh, mm) groups", ct.loc(tzo))
+        # the compiled pattern whose match object is consulted: <pattern>.match(...) / re.match(<pattern text>, ...)
+        if isinstance(n, ast.Call) and isinstance(n.func, ast.Attribute) and n.func.attr in ("match", "fullmatch"):
+            recv = deref(ct, n.func.value, ct.cls("TimestampType"), tzo)
+            if isinstance(recv, ast.Call) and dotted(recv.func) == "re.compile" and recv.args:
+                val = try_const(ct, recv.args[0], ct.cls("TimestampType"), tzo)
+                if isinstance(val, str):
+                    pat = val
+            elif dotted(n.func.value) == "re" and n.args:
+                val = try_const(ct, n.args[0], ct.cls("TimestampType"), tzo)
+                if isinstance(val, str):
+                    pat = val
+    if pat is None:
+        run.inconclusive("C11.Z1", "tz_offset_parse|pattern", "the offset pattern was not found as a constant")
+    else:
+        run.ob("C11.Z1", "tz_offset_parse|pattern", re.compile(pat).groups == 3 and re.fullmatch(pat, "-02:30") is not None and re.fullmatch(pat, "+14:00") is not None,
+               f"offset pattern {pat!r} has (sign, hh, mm) groups", ct.loc(tzo))
     verdict, msgs, inconc = True, [], None
     for sign, hpos, mpos in itertools.product(("+", "-", ""), (False, True), (False, True)):
         try:
-            got = eval_offset(tzo, sign, hpos, mpos)
+            got = eval_offset(tzo, sign, hpos, mpos, ct, ct.cls("TimestampType"))
         except OffTop as ex:
             inconc = str(ex)
             break
